@@ -2,5 +2,6 @@
    N/Z/positive/nat stay inductive). *)
 From Coq Require Import List NArith ZArith.
 From Coq Require Import ExtrOcamlBasic ExtrOcamlString.
-From Mimium Require Import Sched.Model.
-Extraction "sched_model.ml" run_vm run_wasm table_behaviour table_dsp sel_first sel_last trunc_time to_task.
+From Mimium Require Import Sched.Model Sched.WasmAlloc.
+Extraction "sched_model.ml" run_vm run_wasm table_behaviour table_dsp sel_first sel_last trunc_time to_task
+  a_run fresh_behaviour fresh_dsp fresh_init.
